@@ -244,4 +244,14 @@ def main(argv=None):
 
 
 if __name__ == "__main__":
-    sys.exit(main())
+    try:
+        code = main()
+    except SystemExit:
+        raise
+    except BaseException:  # noqa  - an uncaught exception of the machinery is a harness error (exit 2), never a verdict
+        import traceback
+
+        traceback.print_exc()
+        print("harness error: uncaught exception in the checker; no verdict")
+        code = 2
+    sys.exit(code)
